@@ -1,0 +1,38 @@
+//go:build verif
+
+// Contracts for govc (see /verif/DESIGN.md). Comment-only: compiled only with -tags verif.
+package sparse
+
+//@ spec func wf(s *SparseSet) bool = s != nil && len(s.sparse) == len(s.dense) && len(s.sparse) <= 4294967295 && s.size <= len(s.dense) && base(s.dense) != base(s.sparse) && off(s.dense) == 0 && off(s.sparse) == 0 && (forall i :: 0 <= i && i < s.size ==> s.dense[i] < len(s.sparse) && s.sparse[s.dense[i]] == i)
+//@ spec func member(s *SparseSet, v uint32) bool = v < len(s.sparse) && s.sparse[v] < s.size && s.dense[s.sparse[v]] == v
+
+//@ func (*SparseSet).Contains
+//@   props C13 C07
+//@   requires s != nil && len(s.sparse) == len(s.dense) && s.size <= len(s.dense) && len(s.sparse) <= 4294967295
+//@   ensures result == member(s, value)
+
+//@ func (*SparseSet).Insert
+//@   props C13 C07
+//@   requires wf(s) && value < len(s.sparse)
+//@   requires s.size < len(s.dense) || member(s, value)
+//@   modifies s.size, s.dense[*], s.sparse[*]
+//@   ensures wf(s)
+//@   ensures result == !old(member(s, value))
+//@   ensures member(s, value)
+//@   ensures forall v uint32 :: v != value ==> member(s, v) == old(member(s, v))
+//@   ensures s.size == old(s.size) + ite(result, 1, 0)
+
+//@ func (*SparseSet).Clear
+//@   props C13 C07
+//@   requires wf(s)
+//@   modifies s.size
+//@   ensures wf(s)
+//@   ensures forall v uint32 :: !member(s, v)
+
+//@ func (*SparseSet).Remove
+//@   props C13 C07
+//@   requires wf(s)
+//@   modifies s.size, s.dense[*], s.sparse[*]
+//@   ensures wf(s)
+//@   ensures !member(s, value)
+//@   ensures forall v uint32 :: v != value ==> member(s, v) == old(member(s, v))
